@@ -440,14 +440,14 @@ theorem simplify_comparison_bounds_sound (or_ : Bool) (opl opr : Cmp) (c l r x :
   | none =>
     have hx : x = .cmp opl c l ∨ x = .cmp opr c r := by
       cases opl <;> cases opr <;> simp [isLtLte, isGtGte] at hops <;> cases or_ <;>
-        simp [cmpDecide, cmpStep, isLtLte, isGtGte] at h <;>
+        simp [cmpDecide, firstSome, cmpStep, isLtLte, isGtGte] at h <;>
         (repeat' split at h) <;> simp_all
     rcases hx with hx | hx <;> subst hx <;> cases or_ <;> simp [eval, cmpVal, hv, truth, and3, or3, ofB3]
   | some k =>
     have cl : ∀ op n, cmpVal op (eval env c) (.i n) = .b (op.test k n) := by
       intro op n; unfold cmpVal; rw [hv]; rfl
     cases opl <;> cases opr <;> simp [isLtLte, isGtGte] at hops <;> cases or_ <;>
-      simp [cmpDecide, cmpStep, isLtLte, isGtGte] at h <;> subst h <;>
+      simp [cmpDecide, firstSome, cmpStep, isLtLte, isGtGte] at h <;> subst h <;>
       (repeat' split) <;> (try contradiction) <;>
       simp only [eval, el, er, cl, truth, and3_some_some, or3_some_some, ofB3, Cmp.test, Val.b.injEq] <;>
       (try rw [Bool.eq_iff_iff]) <;>
@@ -463,6 +463,187 @@ theorem simplify_comparison_tie_needed :
       eval env x ≠ eval env (.and (.cmp .lte (.icol 0 false) (.int 1)) (.cmp .lt (.icol 0 false) (.int 1))) :=
   ⟨_, ⟨fun _ => none, fun _ => some 1⟩, rfl, by decide⟩
 
+/-- every result of `_simplify_comparison` on `c opl l`, `c opr r` (either bound merged, `a` kept, or FALSE) is exact when the
+    shared term `c` is not NULL — all 36 operator pairs, AND and OR -/
+theorem simplify_comparison_nonnull_sound (or_ : Bool) (opl opr : Cmp) (c l r x : E) (lv rv k : Int)
+    (hl : numVal? l = some lv) (hr : numVal? r = some rv)
+    (h : cmpDecide true or_ (.cmp opl c l) (.cmp opr c r) (some opl) lv (some opr) rv = .res x) (env : Env)
+    (hv : toInt? (eval env c) = some k) :
+    eval env x = eval env (if or_ then .or (.cmp opl c l) (.cmp opr c r) else .and (.cmp opl c l) (.cmp opr c r)) := by
+  have el := numVal_eval env l lv hl
+  have er := numVal_eval env r rv hr
+  have cl : ∀ op n, cmpVal op (eval env c) (.i n) = .b (op.test k n) := by
+    intro op n; unfold cmpVal; rw [hv]; rfl
+  rw [cmpDecide, firstSome_res] at h
+  cases opl <;> cases opr <;> cases or_ <;>
+    simp [cmpStep, isLtLte, isGtGte] at h <;>
+    (try (rcases h with h | h)) <;>
+    (try (obtain ⟨h1, h⟩ := h)) <;> (try (obtain ⟨h2, h⟩ := h)) <;> (try subst h) <;>
+    (repeat' split) <;> (try contradiction) <;>
+    simp only [eval, el, er, cl, truth, and3_some_some, or3_some_some, ofB3, Cmp.test, Val.b.injEq, if_true, if_false, Bool.false_eq_true] <;>
+    (try rw [Bool.eq_iff_iff]) <;>
+    (try simp only [Bool.and_eq_true, Bool.or_eq_true, decide_eq_true_eq, Bool.not_eq_true', decide_eq_false_iff_not, Bool.false_eq_true, false_iff, iff_false, not_and, Bool.not_eq_eq_eq_not, Bool.not_true]) <;>
+    (first | omega | (intros; omega) | trace_state)
+
+/-- … and WHERE-equivalent always: the result is TRUE exactly when the input is TRUE (NULL and FALSE may be confused) -/
+theorem simplify_comparison_where_sound (or_ : Bool) (opl opr : Cmp) (c l r x : E) (lv rv : Int)
+    (hl : numVal? l = some lv) (hr : numVal? r = some rv)
+    (h : cmpDecide true or_ (.cmp opl c l) (.cmp opr c r) (some opl) lv (some opr) rv = .res x) (env : Env) :
+    (truth (eval env x) = some true ↔
+      truth (eval env (if or_ then .or (.cmp opl c l) (.cmp opr c r) else .and (.cmp opl c l) (.cmp opr c r))) = some true) := by
+  cases hv : toInt? (eval env c) with
+  | some k => rw [simplify_comparison_nonnull_sound or_ opl opr c l r x lv rv k hl hr h env hv]
+  | none =>
+    have el := numVal_eval env l lv hl
+    have er := numVal_eval env r rv hr
+    have cn : ∀ op n, cmpVal op (eval env c) (.i n) = .null := by
+      intro op n; unfold cmpVal; rw [hv]
+    rw [cmpDecide, firstSome_res] at h
+    cases opl <;> cases opr <;> cases or_ <;>
+      simp [cmpStep, isLtLte, isGtGte] at h <;>
+      (try (rcases h with h | h)) <;>
+      (try (obtain ⟨h1, h⟩ := h)) <;> (try (obtain ⟨h2, h⟩ := h)) <;> (try subst h) <;>
+      (repeat' split) <;> (try contradiction) <;>
+      simp [eval, el, er, cn, truth, and3, or3, ofB3]
+
+/-- the known finding's exact boundary, for the `→ FALSE` results: the input is FALSE whenever the shared term is not NULL -/
+theorem simplify_comparison_false_nonnull (opl opr : Cmp) (c l r : E) (lv rv k : Int)
+    (hl : numVal? l = some lv) (hr : numVal? r = some rv)
+    (h : cmpDecide true false (.cmp opl c l) (.cmp opr c r) (some opl) lv (some opr) rv = .res (.bool false)) (env : Env)
+    (hv : toInt? (eval env c) = some k) :
+    eval env (.and (.cmp opl c l) (.cmp opr c r)) = .b false := by
+  have := simplify_comparison_nonnull_sound false opl opr c l r (.bool false) lv rv k hl hr h env hv
+  simpa [eval] using this.symm
+
+/-- … and under NOT the rewrite is not even WHERE-equivalent: `NOT (x = 5 AND x < 3)` is NULL (row dropped) for x NULL,
+    `NOT FALSE` is TRUE (row kept) -/
+theorem simplify_comparison_not_where_counterexample :
+    ∃ env, truth (eval env (.not (.paren (.and (.cmp .eq (.icol 0 false) (.int 5)) (.cmp .lt (.icol 0 false) (.int 3)))))) ≠ some true ∧
+      truth (eval env (.not (.bool false))) = some true :=
+  ⟨⟨fun _ => none, fun _ => none⟩, by decide, by decide⟩
+
+/-- every result other than FALSE is exact for every value of the shared term, NULL included -/
+theorem simplify_comparison_nonfalse_sound (or_ : Bool) (opl opr : Cmp) (c l r x : E) (lv rv : Int)
+    (hl : numVal? l = some lv) (hr : numVal? r = some rv)
+    (h : cmpDecide true or_ (.cmp opl c l) (.cmp opr c r) (some opl) lv (some opr) rv = .res x) (hx : x ≠ .bool false)
+    (env : Env) :
+    eval env x = eval env (if or_ then .or (.cmp opl c l) (.cmp opr c r) else .and (.cmp opl c l) (.cmp opr c r)) := by
+  cases hv : toInt? (eval env c) with
+  | some k => exact simplify_comparison_nonnull_sound or_ opl opr c l r x lv rv k hl hr h env hv
+  | none =>
+    have el := numVal_eval env l lv hl
+    have er := numVal_eval env r rv hr
+    have cn : ∀ op n, cmpVal op (eval env c) (.i n) = .null := by
+      intro op n; unfold cmpVal; rw [hv]
+    rw [cmpDecide, firstSome_res] at h
+    cases opl <;> cases opr <;> cases or_ <;>
+      simp [cmpStep, isLtLte, isGtGte] at h <;>
+      (try (rcases h with h | h)) <;>
+      (try (obtain ⟨h1, h⟩ := h)) <;> (try (obtain ⟨h2, h⟩ := h)) <;> (try subst h) <;>
+      (repeat' split) <;> (try contradiction) <;> (try (simp_all; done)) <;>
+      simp [eval, el, er, cn, truth, and3, or3, ofB3]
+
+theorem ofB3_inj (x y : B3) (h : ofB3 x = ofB3 y) : x = y := by
+  have := congrArg truth h; simpa using this
+
+/-- the exact part of the pair table of simplify_connectors preserves the 3-valued truth value of the pair -/
+theorem exact_pair_sound (isAnd : Bool) (a b r : E) (h : exactPair isAnd a b = some r) (env : Env) :
+    (if isAnd then and3 else or3) (truth (eval env a)) (truth (eval env b)) = truth (eval env r) := by
+  unfold exactPair at h
+  cases hc : connConst isAnd a b with
+  | some x =>
+    simp only [hc] at h
+    cases h
+    have := conn_const_sound isAnd a b r hc env
+    cases isAnd <;> simp [eval] at this ⊢ <;> exact (ofB3_inj _ _ this).symm
+  | none =>
+    simp only [hc] at h
+    cases a with
+    | cmp opl c l =>
+      cases b with
+      | cmp opr c' r' =>
+        simp only [] at h
+        split at h
+        · rename_i hcc; subst hcc
+          cases hl : numVal? l with
+          | none => simp [hl] at h
+          | some lv =>
+            cases hr : numVal? r' with
+            | none => simp [hl, hr] at h
+            | some rv =>
+              simp only [hl, hr] at h
+              cases hd : cmpDecide true (!isAnd) (.cmp opl c l) (.cmp opr c r') (some opl) lv (some opr) rv with
+              | res x =>
+                simp only [hd] at h
+                split at h
+                · cases h
+                · rename_i hx
+                  cases h
+                  have := simplify_comparison_nonfalse_sound (!isAnd) opl opr c l r' r lv rv hl hr hd hx env
+                  cases isAnd <;> simp [eval] at this ⊢ <;> rw [this] <;> simp
+              | none => simp [hd] at h
+              | same => simp [hd] at h
+        · cases h
+      | _ => simp at h
+    | _ => simp at h
+
+/-- `_flat_simplify` (queue algorithm) is sound for any pair function that is sound w.r.t. a commutative monoid on the
+    semantics — the design's `flat_simplify_sound`, generic form (see `flatSimplify_sound` in Proofs) -/
+theorem flat_simplify_sound {α : Type} (op : α → α → α) (u : α) (sem : E → α)
+    (hassoc : ∀ a b c, op (op a b) c = op a (op b c)) (hcomm : ∀ a b, op a b = op b a) (hunit : ∀ a, op u a = a)
+    (k : FK) (hmk : ∀ a b, sem (k.mk a b) = op (sem a) (sem b))
+    (pair : E → E → Option E) (hp : ∀ a b r, pair a b = some r → op (sem a) (sem b) = sem r) (gate : Bool) (e : E) :
+    sem (flatSimplify k pair gate e) = sem e :=
+  flatSimplify_sound op u sem hassoc hcomm hunit k hmk pair hp gate e
+
+/-- end to end for simplify_connectors on the exact sub-table (constant table + every non-FALSE `_simplify_comparison`
+    result): the whole queue run over an AND / OR chain of any length keeps the 3-valued truth value -/
+theorem simplify_connectors_exact_sound (isAnd gate : Bool) (e : E) (env : Env) :
+    truth (eval env (flatSimplify (if isAnd then .and else .or) (exactPair isAnd) gate e)) = truth (eval env e) := by
+  cases isAnd
+  · exact flatSimplify_sound or3 (some false) (fun e => truth (eval env e)) or3_assoc or3_comm false_or3 .or
+      (by intro a b; simp [FK.mk, eval]) (exactPair false) (fun a b r h => exact_pair_sound false a b r h env) gate e
+  · exact flatSimplify_sound and3 (some true) (fun e => truth (eval env e)) and3_assoc and3_comm true_and3 .and
+      (by intro a b; simp [FK.mk, eval]) (exactPair true) (fun a b r h => exact_pair_sound true a b r h env) gate e
+
+def addO : Option Int → Option Int → Option Int
+  | some a, some b => some (a + b)
+  | _, _ => none
+def mulO : Option Int → Option Int → Option Int
+  | some a, some b => some (a * b)
+  | _, _ => none
+
+theorem toInt_arith (f : Int → Int → Int) (x y : Val) :
+    toInt? (arith f x y) = (match toInt? x, toInt? y with | some a, some b => some (f a b) | _, _ => none) := by
+  unfold arith; cases toInt? x <;> cases toInt? y <;> rfl
+
+/-- simplify_literals on a sum / product chain of any length (queue algorithm over `_simplify_binary`) keeps the numeric value -/
+theorem simplify_literals_add_sound (pif gate : Bool) (e : E) (env : Env) :
+    toInt? (eval env (flatSimplify .add (binPair .add pif true) gate e)) = toInt? (eval env e) := by
+  refine flatSimplify_sound addO (some 0) (fun e => toInt? (eval env e)) ?_ ?_ ?_ .add ?_ _ ?_ gate e
+  · intro a b c; cases a <;> cases b <;> cases c <;> simp [addO, Int.add_assoc]
+  · intro a b; cases a <;> cases b <;> simp [addO, Int.add_comm]
+  · intro a; cases a <;> simp [addO]
+  · intro a b; simp only [FK.mk, eval, toInt_arith]; cases toInt? (eval env a) <;> cases toInt? (eval env b) <;> rfl
+  · intro a b r h
+    have := bin_pair_sound .add pif true a b r h env
+    simp only [this, BinK.mk, eval, toInt_arith]; cases toInt? (eval env a) <;> cases toInt? (eval env b) <;> rfl
+
+theorem simplify_literals_mul_sound (pif gate : Bool) (e : E) (env : Env) :
+    toInt? (eval env (flatSimplify .mul (binPair .mul pif true) gate e)) = toInt? (eval env e) := by
+  refine flatSimplify_sound mulO (some 1) (fun e => toInt? (eval env e)) ?_ ?_ ?_ .mul ?_ _ ?_ gate e
+  · intro a b c; cases a <;> cases b <;> cases c <;> simp [mulO, Int.mul_assoc]
+  · intro a b; cases a <;> cases b <;> simp [mulO, Int.mul_comm]
+  · intro a; cases a <;> simp [mulO]
+  · intro a b; simp only [FK.mk, eval, toInt_arith]; cases toInt? (eval env a) <;> cases toInt? (eval env b) <;> rfl
+  · intro a b r h
+    have := bin_pair_sound .mul pif true a b r h env
+    simp only [this, BinK.mk, eval, toInt_arith]; cases toInt? (eval env a) <;> cases toInt? (eval env b) <;> rfl
+
+example : flatSimplify .and (exactPair true) true
+    (.and (.and (.cmp .lt (.icol 0 false) (.int 3)) (.bcol 0 false)) (.and (.bool true) (.cmp .lte (.icol 0 false) (.int 5))))
+    = .and (.cmp .lt (.icol 0 false) (.int 3)) (.bcol 0 false) := by decide
+
 /-- KNOWN FINDING (clean tree, pinned by the repo's fixtures): `_simplify_comparison` rewrites `x = 5 AND x < 3` to FALSE.
     For `x` NULL the input is NULL, not FALSE, and under NOT the difference reaches a WHERE filter. -/
 theorem simplify_comparison_and_false_counterexample :
@@ -472,12 +653,86 @@ theorem simplify_comparison_and_false_counterexample :
         ≠ eval env (.not (.bool false)) :=
   ⟨by decide, ⟨fun _ => none, fun _ => none⟩, by decide, by decide⟩
 
-/-- what `normalize` returns, as checked on every run: an accepted (before, after) pair is equivalent, and the
-    normal-form test mirrors `normalize.normalized` -/
+/-- `distributive_law` (children first, then `_distribute` at OR-over-AND / AND-over-OR nodes, both polarities, the
+    same-polarity cross product included) is exact in 3-valued logic, for any sound `uniq_sort` -/
+theorem distributive_law_sound (us : E → E) (hus : ∀ e env, eval env (us e) = eval env e) (dnf : Bool) (e : E) (env : Env) :
+    eval env (distLaw us dnf e) = eval env e :=
+  (distLaw_all us hus dnf env e).1
+
+/-- `_distribute(a, b)` alone: exact Kleene distributivity -/
+theorem distribute_exact (us : E → E) (hus : ∀ e env, eval env (us e) = eval env e) (toAnd : Bool) (a b : E) (env : Env) :
+    eval env (distribute us toAnd a b) = eval env (rawConn (!toAnd) a b) := by
+  rw [distribute_sound us hus]; simp
+
+example : distLaw id false (.or (.paren (.and (.bcol 0 false) (.bcol 1 false))) (.bcol 2 false))
+    = .and (.paren (.or (.bcol 2 false) (.bcol 0 false))) (.paren (.or (.bcol 2 false) (.bcol 1 false))) := by decide
+
+/-- what `normalize` returns, as checked on every run: from the Boolean check alone — nothing assumed — the result is in
+    the requested normal form (mirrored `normalized`) or is the input (possibly with BETWEEN rewritten), and it has the
+    same 3-valued truth value as the input under every assignment -/
 theorem normalize_result (c : Cmp → Cmp) (hc : InverseOK c) (dnf : Bool) (e e' : E)
-    (h : checkStep c .normalize e e' = true) (hn : normalizedM dnf e' = true ∨ e' = e) :
-    (normalizedM dnf e' = true ∨ e' = e) ∧ ∀ env, truth (eval env e') = truth (eval env e) :=
-  ⟨hn, fun env => (checkStep_sound c hc .normalize e e' h env).symm⟩
+    (h : checkNormalize c dnf e e' = true) :
+    (normalizedM dnf e' = true ∨ e' = e ∨ e' = rbAll e) ∧ ∀ env, truth (eval env e') = truth (eval env e) := by
+  simp only [checkNormalize, Bool.and_eq_true, Bool.or_eq_true, beq_iff_eq] at h
+  refine ⟨?_, fun env => (checkStep_sound c hc .normalize e e' h.1 env).symm⟩
+  rcases h.2 with (h2 | h2) | h2
+  · exact Or.inl h2
+  · exact Or.inr (Or.inl h2)
+  · exact Or.inr (Or.inr h2)
+
+/-- propagate_constants (conjunct-only harvesting, 9e10c4d) is WHERE-equivalent: the rewritten AND is TRUE exactly when
+    the input is (for integer-typed bound columns; `none` = two conjuncts bind the same column, not modelled) -/
+theorem propagate_constants_where_sound (gate : Bool) (e e' : E) (h : propagateConstants gate e = some e')
+    (hI : ∀ c n, (c, n) ∈ conjBindings e → isIcol c = true) (env : Env) :
+    (truth (eval env e') = some true ↔ truth (eval env e) = some true) := by
+  unfold propagateConstants at h
+  split at h
+  · split at h
+    · simp only [] at h
+      split at h
+      · cases h
+      · cases h; exact substSpine_where env _ hI
+    · cases h; exact Iff.rfl
+  · cases h; exact Iff.rfl
+
+/-- … and exact (NULL, TRUE, FALSE distinct) under every assignment in which no bound column is NULL -/
+theorem propagate_constants_nonnull_sound (gate : Bool) (e e' : E) (h : propagateConstants gate e = some e')
+    (hI : ∀ c n, (c, n) ∈ conjBindings e → isIcol c = true) (env : Env)
+    (hnn : ∀ c n, (c, n) ∈ conjBindings e → eval env c ≠ .null) :
+    eval env e' = eval env e := by
+  unfold propagateConstants at h
+  split at h
+  · split at h
+    · simp only [] at h
+      split at h
+      · cases h
+      · cases h; exact substSpine_nonnull env _ _ hI hnn
+    · cases h; rfl
+  · cases h; rfl
+
+/-- KNOWN FINDING (by design of the rule): for a NULL column the rewrite turns NULL into FALSE:
+    `x = 5 AND x < 3 → x = 5 AND 5 < 3` -/
+theorem propagate_constants_null_counterexample :
+    ∃ e e' env, propagateConstants true e = some e' ∧ eval env e' ≠ eval env e :=
+  ⟨.and (.cmp .eq (.icol 0 false) (.int 5)) (.cmp .lt (.icol 0 false) (.int 3)),
+   .and (.cmp .eq (.icol 0 false) (.int 5)) (.cmp .lt (.int 5) (.int 3)),
+   ⟨fun _ => none, fun _ => none⟩, by decide, by decide⟩
+
+/-- uniq_sort as a mirrored function (the operand order of the result is a parameter; the real one comes from sorting
+    `gen()` texts): every duplicate-free rearrangement of the operands keeps the 3-valued truth value -/
+theorem uniq_sort_sound (order : List E) (gate : Bool) (e : E) (env : Env) :
+    truth (eval env (uniqSortWith order gate e)) = truth (eval env e) :=
+  uniqSortWith_sound order gate e env
+
+example : uniqSortWith [.bcol 0 false, .bcol 1 false] true (.and (.bcol 1 false) (.and (.bcol 0 false) (.bcol 1 false)))
+    = .and (.bcol 0 false) (.bcol 1 false) := by decide
+
+/-- remove_complements as a mirrored function is exact under its `nonnull` gate -/
+theorem remove_complements_sound (gate nonnull : Bool) (e : E) (hn : nonnull = true → nonNullE e = true) (env : Env) :
+    eval env (removeComplements gate nonnull e) = eval env e :=
+  removeComplements_sound gate nonnull e hn env
+
+example : removeComplements true true (.and (.bcol 0 true) (.not (.bcol 0 true))) = .bool false := by decide
 
 /-- the fixpoint driver (`while_changing`): iterating a sound pass any number of times is sound -/
 def iterate (f : E → E) : Nat → E → E
